@@ -334,7 +334,20 @@ fn cmd_of(kind: &str) -> [u8; 12] { let mut c = [0u8; 12]; c[..kind.len()].copy_
 fn magic_of(s: &str) -> [u8; 4] { let b = unhexd(s); let mut m = [0u8; 4]; m.copy_from_slice(&b); m }
 
 /// write, size, read back
+/// A destination that fails after accepting `left` bytes (a connection that breaks).
+struct Breaking { left: usize }
+impl std::io::Write for Breaking {
+    fn write(&mut self, b: &[u8]) -> std::io::Result<usize> {
+        if self.left == 0 { return Err(std::io::Error::new(std::io::ErrorKind::BrokenPipe, "broken")); }
+        let n = b.len().min(self.left); self.left -= n; Ok(n)
+    }
+    fn flush(&mut self) -> std::io::Result<()> { Ok(()) }
+}
+
 fn enc_msg(m: &Message, magic: [u8; 4]) -> String {
+    // the encoding of a message must not depend on what happened to EARLIER writes on this thread: first let a write of the
+    // same message fail (before the header, inside the header, inside the payload), then do the one that is judged
+    for left in [0usize, 10, 27] { let _ = m.write(&mut Breaking { left }, magic); }
     let mut v = Vec::new();
     if m.write(&mut v, magic).is_err() { return "err:write".into(); }
     let mut c = Cursor::new(&v);
